@@ -400,20 +400,25 @@ func (w *world) doOp(op OpSpec) string {
 		p, err := w.ws.Plan(bg, w.uuidOf(op.ID))
 		return planClass(p, err)
 	case "status":
+		// the iterator is consumed until it stops by itself or has delivered 3 results
 		ctx, cancel := context.WithTimeout(bg, 10*time.Second)
 		defer cancel()
-		n := 0
-		c := "canceled"
+		var cs []string
+		ended := true
 		for r := range w.ws.Status(ctx, w.uuidOf(op.ID), time.Duration(w.spec.StatusMs)*time.Millisecond) {
-			if n == 0 {
-				c = planClass(r.Data, r.Err)
-			}
-			n++
-			if n >= 2 {
+			cs = append(cs, planClass(r.Data, r.Err))
+			if len(cs) >= 3 {
+				ended = false
 				break
 			}
 		}
-		return c
+		if len(cs) == 0 {
+			return "canceled"
+		}
+		if ended {
+			return strings.Join(cs, ",") + ";e"
+		}
+		return strings.Join(cs, ",") + ";b"
 	case "await":
 		deadline := time.Now().Add(10 * time.Second)
 		for time.Now().Before(deadline) {
@@ -568,7 +573,7 @@ func childMain() {
 							c = planClass(r.Data, r.Err)
 						}
 						n++
-						if n >= 2 {
+						if n >= 3 {
 							break
 						}
 					}
@@ -578,6 +583,7 @@ func childMain() {
 		}
 		close(fire)
 		startsDone.Wait()
+		say("S %s", strings.Join(starts, ",")) // known even if the process dies later
 		if rec != nil {
 			rec.openGate()
 		}
@@ -613,13 +619,14 @@ func childMain() {
 // ---------------------------------------------------------------------------------------------- parent
 
 type childOut struct {
-	results []string // per op; "" = not reached
-	died    int      // index of the op in progress when the process ended abnormally, -1 = none, -2 = between/after ops
-	execs   []int
-	burst   string
-	abnorm  string // "", "panic", "exit", "hang", "setup"
-	stderr  string
-	wall    time.Duration
+	results     []string // per op; "" = not reached
+	died        int      // index of the op in progress when the process ended abnormally, -1 = none, -2 = between/after ops
+	execs       []int
+	burst       string
+	burstStarts string
+	abnorm      string // "", "panic", "exit", "hang", "setup"
+	stderr      string
+	wall        time.Duration
 }
 
 func runChild(self string, spec *Spec, timeout time.Duration) childOut {
@@ -656,6 +663,10 @@ func runChild(self string, spec *Spec, timeout time.Duration) childOut {
 			for _, x := range f[1:] {
 				n, _ := strconv.Atoi(x)
 				o.execs = append(o.execs, n)
+			}
+		case "S":
+			if len(f) > 1 {
+				o.burstStarts = f[1]
 			}
 		case "R":
 			o.burst = strings.TrimPrefix(line, "R ")
@@ -725,7 +736,18 @@ func plTerm(ps *PreSpec, maxMs int64) string {
 	return core.Sprintf("{| pl_status := %s; pl_submit := %s; pl_valid := %s |}", statusTerm[ps.Status], sub, core.B(ps.Invalid == ""))
 }
 
-func opTerm(op OpSpec) string {
+// splitStatus splits what a status op printed ("st1,st1,st2;e") into first, more, ended.
+func splitStatus(res string) (string, []string, bool) {
+	ended := true
+	if k := strings.Index(res, ";"); k >= 0 {
+		ended = res[k+1:] == "e"
+		res = res[:k]
+	}
+	f := strings.Split(res, ",")
+	return f[0], f[1:], ended
+}
+
+func opTerm(op OpSpec, res string) string {
 	switch op.Op {
 	case "submit":
 		return core.Sprintf("(HSubmit %s %s)", core.B(op.Valid), core.B(op.GateOpen))
@@ -734,7 +756,12 @@ func opTerm(op OpSpec) string {
 	case "wait":
 		return core.Sprintf("(HWait %d)", op.ID)
 	case "status":
-		return core.Sprintf("(HStatus %d)", op.ID)
+		_, more, ended := splitStatus(res)
+		var ts []string
+		for _, m := range more {
+			ts = append(ts, rterm(m))
+		}
+		return core.Sprintf("(HStatus %d %s %s)", op.ID, core.List(ts), core.B(ended))
 	case "plan":
 		return core.Sprintf("(HPlan %d)", op.ID)
 	case "await":
@@ -990,7 +1017,11 @@ func histCase(s *Spec, o childOut) core.Case {
 	calls := map[int]int{}
 	note := ""
 	add := func(op OpSpec, res string) {
-		ops = append(ops, core.Pair(opTerm(op), rterm(res)))
+		first := res
+		if op.Op == "status" {
+			first, _, _ = splitStatus(res)
+		}
+		ops = append(ops, core.Pair(opTerm(op, res), rterm(first)))
 		obs = append(obs, map[string]any{"op": op.Op, "id": op.ID, "id_kind": op.IDKind, "result": res, "quiesce": op.Quiesce})
 		sig = append(sig, op.Op+":"+op.IDKind+":"+res)
 		if !op.Quiesce {
@@ -1088,6 +1119,9 @@ func burstCase(s *Spec, o childOut) core.Case {
 			final = f[3]
 		}
 	}
+	if o.burst == "" && o.burstStarts != "" {
+		starts = strings.Split(o.burstStarts, ",")
+	}
 	if o.abnorm != "" {
 		note = o.abnorm
 		final = "panic"
@@ -1136,6 +1170,7 @@ func main() {
 	nt := flag.Int("ticks", 4, "number of histories in which time really passes (maxSubmit 6 s)")
 	maxLen := flag.Int("maxlen", 12, "maximum number of calls of a history (before the quiescing calls)")
 	par := flag.Int("par", 12, "children running at the same time")
+	base := flag.Int("base", 0, "index of the first generated history / burst (to make several batches distinct)")
 	outp := flag.String("out", "-", "output file (JSONL)")
 	replay := flag.String("spec", "", "run the spec in this JSON file (a replay) instead of generating")
 	reps := flag.Int("reps", 1, "with -spec: number of repetitions")
@@ -1174,13 +1209,13 @@ func main() {
 		}
 	} else {
 		for i := 0; i < *nt; i++ {
-			specs = append(specs, genHist(root, 500_000+i, *maxLen, true)) // first: they take longest
+			specs = append(specs, genHist(root, 500_000+*base+i, *maxLen, true)) // first: they take longest
 		}
 		for i := 0; i < *n; i++ {
-			specs = append(specs, genHist(root, i, *maxLen, false))
+			specs = append(specs, genHist(root, *base+i, *maxLen, false))
 		}
 		for i := 0; i < *nb; i++ {
-			specs = append(specs, genBurst(root, i))
+			specs = append(specs, genBurst(root, *base+i))
 		}
 	}
 	cases := make([]core.Case, len(specs))
